@@ -6,9 +6,11 @@ from gen import mibgen
 from props import codegen_common as cg
 
 LEVEL = 'proof'
-MODULES = ['Pysmi.Props.C01', 'Pysmi.Props.C03', 'Pysmi.Pins.SkelC01']
-LAKE_TARGETS = ['Pysmi.Props.C01', 'Pysmi.Props.C03', 'Pysmi.Pins.SkelC01']
+MODULES = ['Pysmi.Props.C01', 'Pysmi.Props.C03', 'Pysmi.Pins.SkelC01', 'Pysmi.Props.C01Records']
+LAKE_TARGETS = ['Pysmi.Props.C01', 'Pysmi.Props.C03', 'Pysmi.Pins.SkelC01', 'Pysmi.Props.C01Records']
 THEOREMS = [
+    'Pysmi.Records.C01_symtable_arity',
+    'Pysmi.Records.C01_symtable_fields',
     'Pysmi.Pins.SkelC01.pin_symtableGenCode',
     'Pysmi.Pins.SkelC01.pin_regPostponed',
     'Pysmi.Pins.SkelC01.pin_genNumericOid',
@@ -50,13 +52,13 @@ def check_set(ctx, obs, reqs, metas):
     for be in ('json', 'pysnmp'):
         if obs.get('raised_' + be):
             res.oracle_failures.append({'key': 'escaped-exception', 'what': '%s backend: %s' % (be, obs['raised_' + be]),
-                                        'input': {'seed': obs['seed'], 'texts': obs['texts']}})
+                                        'input': {'seed': obs['seed'], 'texts': obs['texts'], 'run_set': obs.get('run_set')}})
     for mn in g.modules:
         for be in obs['status']:
             s = obs['status'].get(be, {}).get(mn)
             if s != 'compiled' and not obs.get('raised_' + be):
                 res.oracle_failures.append({'key': 'compiles', 'what': 'well-formed module %s is %s with the %s backend: %s' % (
-                    mn, s, be, obs.get('errors_' + be, {}).get(mn, '')), 'input': {'seed': obs['seed'], 'texts': obs['texts']}})
+                    mn, s, be, obs.get('errors_' + be, {}).get(mn, '')), 'input': {'seed': obs['seed'], 'texts': obs['texts'], 'run_set': obs.get('run_set')}})
     for (mn, name), t in g.truth.items():
         if 'oid' not in t:
             continue
@@ -67,10 +69,10 @@ def check_set(ctx, obs, reqs, metas):
             got = doc.get(jn, {}).get('oid')
             if got != want:
                 res.oracle_failures.append({'key': 'json-oid', 'what': '%s::%s has OID %s in the JSON document, the text defines %s' % (
-                    mn, name, got, want), 'input': {'seed': obs['seed'], 'texts': obs['texts']}})
+                    mn, name, got, want), 'input': {'seed': obs['seed'], 'texts': obs['texts'], 'run_set': obs.get('run_set')}})
         if mn in obs['summary'] and want not in obs['summary'][mn]['oids']:
             res.oracle_failures.append({'key': 'summary-oid', 'what': '%s::%s: OID %s missing from the OID summary' % (mn, name, want),
-                                        'input': {'seed': obs['seed'], 'texts': obs['texts']}})
+                                        'input': {'seed': obs['seed'], 'texts': obs['texts'], 'run_set': obs.get('run_set')}})
         py = obs['pysnmp'].get(mn)
         if py and py['builder'] is not None:
             o = py['builder'].exports.get(mn, {}).get(jn)
@@ -78,14 +80,14 @@ def check_set(ctx, obs, reqs, metas):
                 d = __import__('impl.recbuilder', fromlist=['describe']).describe(o)
                 if d.get('oid') is not None and d['oid'] != t['oid']:
                     res.oracle_failures.append({'key': 'pysnmp-oid', 'what': '%s::%s has OID %r in the pysnmp module, the text defines %s' % (
-                        mn, name, d['oid'], want), 'input': {'seed': obs['seed'], 'texts': obs['texts']}})
+                        mn, name, d['oid'], want), 'input': {'seed': obs['seed'], 'texts': obs['texts'], 'run_set': obs.get('run_set')}})
     # summary holds nothing the module does not define
     for mn, sm in obs['summary'].items():
         defined = {mibgen.dotted(t['oid']) for (m2, n2), t in g.truth.items() if m2 == mn and 'oid' in t}
         extra = set(sm['oids']) - defined
         if extra and mn in g.modules:
             res.oracle_failures.append({'key': 'summary-extra', 'what': '%s: summary lists OIDs the module does not define: %s' % (
-                mn, sorted(extra)[:3]), 'input': {'seed': obs['seed'], 'texts': obs['texts']}})
+                mn, sorted(extra)[:3]), 'input': {'seed': obs['seed'], 'texts': obs['texts'], 'run_set': obs.get('run_set')}})
     # correspondence 1: OID resolution on the real cross-module symbol table
     if obs['symmap']:
         req, keys = cg.oid_request(obs['symmap'])
@@ -220,6 +222,8 @@ def replay(payload):
     from impl import pipeline
     inp = payload['input']
     texts = inp['texts']
+    if inp.get('run_set'):
+        return cg.replay_regenerated('C01', inp, lambda c, o: check_set(c, o, [], []), payload.get('key'))
     if inp.get('expect') == 'no-exception':
         try:
             pipeline.compile_set(texts, genTexts=True)
